@@ -25,6 +25,7 @@ RULE = ("seeded grids/case sets (<= 48 settings) x 1-3 outputs (scalar, 1-d, 2-d
         "not internal dimensions x resources x attrs x entry point (combo_runner_to_ds, case_runner_to_ds, *_to_df, "
         "Runner.run_combos/run_cases, label()) x shuffle / executor options; labelled returns whose own coordinate depends on the arguments; dict cases with keys in varying order; argument names read off plain / keyword-only / decorated functions; the caller's case dicts compared after the call; distinct by (entry, shapes, output "
         "spec, spellings, options); non-trivial when >= 2 settings ran")
+RULE += '; internal axes of exactly one entry or none at all (per-case axis sizes), labelled by var_coords, by a constant, or not at all'
 ASSUMPTIONS = [
     "a function returning a DataArray with var_names=None yields a DataArray from xyzpy; it is judged as the one-variable Dataset of that name",
     "dimension names are distinct from output names (the tuple spelling of var_dims is ambiguous otherwise)",
